@@ -32,7 +32,7 @@ def run(ctx):
                     "np.linalg eigh / cholesky / solve_triangular are oracles (their results are judged through the identities they must satisfy)"]
     ctx.assumptions += ["tolerance 2^-30; every observable has a non-zero fluctuation vector on each of its ensembles and a positive error"]
     ctx.copy_props()
-    common.tie_pycore(ctx, ["Tie_inter.v", "Tie_reduce.v", "Tie_covdot.v"])
+    common.tie_pycore(ctx, ["Tie_inter.v", "Tie_reduce.v", "Tie_covdot.v", "Tie_sortcorr.v"])
 
     cases = []
     ncase = 70 if quick else 1200
